@@ -16,6 +16,7 @@ from .build import AnalysisBroken, VERIF, WORK
 
 def make_overlay(tag):
     ov = os.path.join(WORK, 'overlay-%s-%d' % (tag, os.getpid()))
+    os.makedirs(WORK, exist_ok=True)
     if os.path.exists(ov):
         shutil.rmtree(ov)
     os.makedirs(ov)
@@ -46,7 +47,7 @@ def expectations(patch):
 
 def run_variant(pid, patch):
     from .ctx import Check
-    ov = make_overlay(pid)
+    ov = make_overlay(pid + '-' + os.path.basename(patch).replace('.patch', ''))
     try:
         if not apply_patch(ov, patch):
             return {'patch': os.path.basename(patch), 'status': 'skipped (does not apply to the current tree)'}
@@ -70,7 +71,12 @@ def run_variant(pid, patch):
 
 def run(ck, pid):
     patches = sorted(glob.glob(os.path.join(VERIF, 'selftest', pid, '*.patch')))
-    results = [run_variant(pid, p) for p in patches]
+    if len(patches) > 1:
+        from concurrent.futures import ProcessPoolExecutor
+        with ProcessPoolExecutor(max_workers=min(8, len(patches))) as ex:
+            results = list(ex.map(run_variant, [pid] * len(patches), patches))
+    else:
+        results = [run_variant(pid, p) for p in patches]
     ck.extra['seeded_variants'] = results
     missed = [r for r in results if r['status'].startswith('MISSED')]
     if missed:
